@@ -16,8 +16,28 @@ pub type Txn = Transaction<SP, AuditStore>;
 
 pub struct Replica {
     pub client: ClientState<AuditStore, SP>,
+    /// `RuntimeBuffers` are documented as "construct once per long-lived component and reuse
+    /// across calls": the engine re-uses the same buffers for every replica of every case it
+    /// replays (taken from / returned to a pool), so state leaking from one braid or traversal
+    /// into the next shows up as a wrong result of a later case.
     pub buffers: RuntimeBuffers<Seg>,
     pub graph: GraphId,
+}
+
+thread_local! {
+    static POOL: std::cell::RefCell<Vec<RuntimeBuffers<Seg>>> = const { std::cell::RefCell::new(Vec::new()) };
+}
+
+impl Drop for Replica {
+    fn drop(&mut self) {
+        let b = std::mem::replace(&mut self.buffers, RuntimeBuffers::new());
+        POOL.with(|p| {
+            let mut p = p.borrow_mut();
+            if p.len() < 4 {
+                p.push(b);
+            }
+        });
+    }
 }
 
 /// Error classes of the spec.
@@ -52,7 +72,7 @@ impl Replica {
     pub fn new(graph: [u8; 32]) -> Self {
         Replica {
             client: ClientState::new(AuditStore, SP::default()),
-            buffers: RuntimeBuffers::new(),
+            buffers: POOL.with(|p| p.borrow_mut().pop()).unwrap_or_else(RuntimeBuffers::new),
             graph: GraphId::transmute(CmdId::from_bytes(graph)),
         }
     }
